@@ -68,6 +68,15 @@ def cases(tier, rng):
         ops.append("status")
         out.append("p%d proxy %s %s%s%s / %s" % (k, pair[0], pair[1], " cap" if cap else "", " prepoll" if rng.random() < 0.3 else "", " / ".join(ops)))
         k += 1
+    # a misbehaving peer on one side (undecodable frame, connection cut inside a frame) does not end the proxy: the other
+    # peers' traffic keeps being forwarded
+    for junk, cut in ((W.tok(W.frame(bytes([4]) + b"PING", cmd=True)), False), ("0009aabb", True), ("05ffffffffffffffffff", False)):
+        ops = ["fattach a REQ id=4361", "fattach z REQ id=437a", "battach x REP id=5778",
+               "ffeed a " + W.tok(W.msg([b"", b"q0"])), "settle", "ffeed z " + junk] + (["feof z"] if cut else []) + ["settle",
+               "ffeed a " + W.tok(W.msg([b"", b"q1"])), "settle", "bfeed x " + W.tok(W.msg([b"Ca", b"", b"r0"])), "settle",
+               "fwire a", "bwire x", "status"]
+        out.append("p%d proxy ROUTER DEALER / %s" % (k, " / ".join(ops)))
+        k += 1
     # more than a MiB in each direction with both sides ready in the same polls
     for pair in (("ROUTER", "DEALER"), ("DEALER", "DEALER")):
         nmsg, size = 20, 60000
